@@ -1,5 +1,7 @@
 // scenarios for the coroutine mutex (C07, C08; also part of the C03 TSan workload)
 #pragma once
+#include <optional>
+#include <array>
 #include <vf/team.h>
 #include <cocls/mutex.h>
 #include <cocls/async.h>
@@ -393,6 +395,84 @@ inline void mutex_pool_handoff(const vf::opts &o, vf::report &R, uint64_t rounds
             R.sig(sg);
             if (rn < 2) R.sample(witness());
         }
+    }
+}
+
+// ---------------------------------------------------------------------------------------------
+// The ownership OBJECT (move-only handle): random single-thread histories of try_lock into a slot, move construction, move
+// assignment (over empty and over HELD ownerships), release() (also twice), destruction - on two mutexes. After every step each
+// mutex must be locked iff the model says that some slot owns it: a probe try_lock succeeds exactly on the free ones (never blocks),
+// and one coroutine parked on each mutex is granted exactly when its mutex becomes free.
+struct own_waiter { int granted = 0; cocls::mutex::ownership held; };
+inline cocls::async<void> own_wait_coro(cocls::mutex &m, own_waiter &w) { w.held = co_await m.lock(); w.granted++; }
+inline void ownership_object_history(const vf::opts &o, vf::report &R, uint64_t histories) {
+    vf::rng master(vf::mix(o.seed, 0x707));
+    for (uint64_t hn = 0; hn < histories && R.nviol() < 5; hn++) {
+        vf::rng r(master.next());
+        vf::set_crash_ctx(R.prop.c_str(), "ownership_object_history", o.seed, hn);
+        auto mxs = std::make_unique<std::array<cocls::mutex, 2>>();
+        constexpr int NS = 4;
+        std::optional<cocls::mutex::ownership> slot[NS];
+        int owns[NS]; for (auto &x : owns) x = -1;   // model: which mutex the slot's ownership holds (-1 none / empty object)
+        std::string trace, err;
+        int len = 3 + (int)r.below(20);
+        auto owner_of = [&](int m) { for (int i = 0; i < NS; i++) if (slot[i] && owns[i] == m) return i; return -1; };
+        auto check = [&](const char *after) {
+            for (int m = 0; m < 2 && err.empty(); m++) {
+                bool model_locked = owner_of(m) >= 0;
+                cocls::mutex::ownership probe = (*mxs)[(size_t)m].try_lock();
+                if ((bool)probe == model_locked) err = std::string("after ") + after + ": mutex " + std::to_string(m) + (model_locked ? " could be locked although a live ownership object holds it (two owners)" : " is still locked although no ownership object holds it any more");
+            } // probes release at scope end
+        };
+        for (int step = 0; step < len && err.empty(); step++) {
+            int i = (int)r.below(NS), j = (int)r.below(NS), m = (int)r.below(2);
+            uint32_t x = r.below(100);
+            if (x < 30) { // try_lock into slot i (replacing whatever the slot held: move assignment over it)
+                trace += "s" + std::to_string(i) + "=try_lock(m" + std::to_string(m) + ") ";
+                bool free_now = owner_of(m) < 0;
+                cocls::mutex::ownership got = (*mxs)[(size_t)m].try_lock();
+                if ((bool)got != free_now) { err = "try_lock result disagrees with the model"; break; }
+                if (!slot[i]) slot[i].emplace(std::move(got)); else *slot[i] = std::move(got); // old ownership of the slot is released by the assignment
+                owns[i] = free_now ? m : -1;
+            } else if (x < 50 && slot[i] && slot[j] && i != j) { // move assignment: target's mutex is released, source becomes empty
+                trace += "s" + std::to_string(i) + "=move(s" + std::to_string(j) + ") ";
+                *slot[i] = std::move(*slot[j]);
+                owns[i] = owns[j]; owns[j] = -1;
+            } else if (x < 60 && slot[j] && !slot[i]) { // move construction
+                trace += "s" + std::to_string(i) + "(move(s" + std::to_string(j) + ")) ";
+                slot[i].emplace(std::move(*slot[j]));
+                owns[i] = owns[j]; owns[j] = -1;
+            } else if (x < 80 && slot[i]) { // release(), discarded (ordinary code); releasing an empty / already released object does nothing
+                trace += "s" + std::to_string(i) + ".release() ";
+                slot[i]->release();
+                owns[i] = -1;
+            } else if (x < 92 && slot[i]) { // destruction
+                trace += "~s" + std::to_string(i) + " ";
+                slot[i].reset(); owns[i] = -1;
+            } else if (x < 96 && slot[i]) { // self move-assignment must keep the ownership
+                trace += "s" + std::to_string(i) + "=move(self) ";
+                cocls::mutex::ownership &ref = *slot[i];
+                *slot[i] = std::move(ref);
+            } else continue;
+            check(trace.c_str());
+        }
+        // a coroutine parked on each still locked mutex is granted exactly when the last ownership object goes away
+        own_waiter w[2];
+        for (int m = 0; m < 2 && err.empty(); m++) if (owner_of(m) >= 0) {
+            own_wait_coro((*mxs)[(size_t)m], w[m]).detach();
+            if (w[m].granted) err = "waiter granted while an ownership object still holds the mutex";
+            int k = owner_of(m);
+            if (r.chance(1, 2)) slot[k].reset(); else slot[k]->release();
+            owns[k] = -1;
+            if (err.empty() && w[m].granted != 1) err = "waiter was granted " + std::to_string(w[m].granted) + " times when the ownership was given up";
+            w[m].held.release();
+        }
+        for (auto &s2 : slot) s2.reset();
+        if (err.empty()) { for (auto &x : owns) x = -1; check("destruction of all ownership objects"); }
+        R.cases++;
+        if (!err.empty()) { R.violation("monitor:ownership|ownership_object_history", err, vf::jobj().kv("history", (unsigned long long)hn).kv("seed", (unsigned long long)o.seed).kv("ops", trace).str()); (void)mxs.release(); continue; }
+        if (len >= 4) { R.nontrivial_cases++; R.sig(trace); }
+        if (R.samples.size() < 2 && len > 8) R.sample(vf::jobj().kv("ops", trace).kv("result", "each mutex locked iff exactly one live ownership object holds it").str());
     }
 }
 
